@@ -415,6 +415,13 @@ def run_pure_case(case, res):
         if safe_load(s_, case["text"]) is not None:
             return None
         init_regs(kind, s_, case["regs"])
+        if kind == "toy" and case.get("pokes") is not None:
+            # arbitrary memory image behind the assembled prefix (self-modifying code, words the assembler never emits)
+            from fixedint import UInt16
+
+            for a_, v_ in case["pokes"].items():
+                s_.state.memory.write_halfword(int(a_), UInt16(v_))
+            s_.state.accu = UInt16(case.get("acc", 0))
         return s_
 
     def plan_rng():
@@ -543,13 +550,32 @@ def gen_pure_case(rng):
         from . import toy as T
 
         src = T.gen_source(rng)
-        return {"kind": "pure", "sim": "toy", "cfg": {}, "text": src["text"], "regs": {}, "max_steps": 80, "join_step": rng.choice([0, 1, 2, 3, 10**6]), "seed": rng.getrandbits(30)}
+        case = {"kind": "pure", "sim": "toy", "cfg": {}, "text": src["text"], "regs": {}, "max_steps": 80, "join_step": rng.choice([0, 1, 2, 3, 10**6]), "seed": rng.getrandbits(30)}
+        if rng.random() < 0.5:
+            pc_ = T.gen_selfmod_case(rng) if rng.random() < 0.3 else T.gen_prog_case(rng)
+            case.update(text=pc_["text"], pokes=pc_["pokes"], acc=pc_["acc"])
+            if rng.random() < 0.5:
+                # runs of same-opcode words whose address bits differ (non-address opcodes keep their low bits)
+                L_ = pc_["L"]
+                op_ = rng.choice([8, 9, 10, 11, 12, 13])
+                for a_ in range(1, L_):
+                    if rng.random() < 0.6:
+                        case["pokes"][str(a_)] = (op_ << 12) | rng.getrandbits(12)
+        return case
     prog, regs, _ = gen_rv_program(rng, allow_fault=rng.random() < 0.1)
     cfg = {"hz": rng.random() < 0.8, "dcache": rand_cache(rng), "icache": rand_cache(rng, data=False)}
     if rng.random() < 0.5:
         regs["17"] = 4
         regs["10"] = 0x4000
     text = asm_text(prog)
+    if rng.random() < 0.4:
+        # store / load back / add two loaded values so that the sum overflows 32 bits / look at the high bits
+        k_ = rng.choice([0, 4, 8, 12])
+        pro = ["sw x5, %d(x31)" % k_, "lw x6, %d(x31)" % k_, "lw x7, %d(x31)" % k_, "add x8, x6, x7", "srli x9, x8, 1", "sltu x1, x8, x6", "sll x2, x6, x7", "mul x3, x6, x7"]
+        regs = dict(regs)
+        regs["5"] = rng.choice([0x80000001, 0xFFFFFFFF, 0xC0000000, rng.getrandbits(32) | 0x80000000])
+        regs.setdefault("31", 0x4000)
+        text = "\n".join(pro) + "\n" + "\n".join("nop" for _ in range(rng.randint(0, 2))) + ("\n" if text else "") + text
     if kind == "single" and rng.random() < 0.35:
         # CSR instructions execute in single-cycle mode (and take the 'no visualisation' path of the SVG list)
         lines = text.split("\n")
